@@ -280,7 +280,7 @@ func (h *fsHarness) reset(f []string) {
 	h.dir = filepath.Join(h.base, fmt.Sprintf("c%d", h.st.Cases))
 	os.RemoveAll(h.dir)
 	names := [][3]string{{"ev", ".log", ""}, {"catalog", ".log", "cata-1000000000000000000.log"}, {"debug", ".log", "debu-1000000000000000000.log"}, {"syslog", "", "sys-1000000000000000000.log"}}
-	nm := names[(h.mb+h.mf+h.md+h.mode)%len(names)]
+	nm := names[(h.mb+h.mf+h.md+100+h.mode)%len(names)]
 	h.stem, h.ext, h.decoy = nm[0], nm[1], nm[2]
 	if h.decoy != "" {
 		os.MkdirAll(h.dir, 0o700)
@@ -329,7 +329,7 @@ func (h *fsHarness) exec(line string) (string, string) {
 		md := time.Duration(h.md) * time.Millisecond
 		elapsed := 0
 		switch {
-		case h.md == 0 || lcBefore.IsZero():
+		case h.md <= 0 || lcBefore.IsZero(): // zero or negative ("disabled") MaxDuration: age never counts
 		case eb > md:
 			elapsed = h.md + 1
 			h.st.hit("write:time-condition-certainly-true")
@@ -354,8 +354,8 @@ func (h *fsHarness) exec(line string) (string, string) {
 			if want != rotated && err == nil {
 				h.oracle("C15 rotation=%v but BytesWritten=%d MaxBytes=%d elapsed>MaxDuration=%v", rotated, bwBefore, h.mb, elapsed > h.md)
 			}
-			if h.mb == 0 && h.md == 0 && rotated {
-				h.oracle("C15 rotated although neither limit is configured")
+			if h.mb == 0 && h.md <= 0 && rotated {
+				h.oracle("C15 rotated although neither limit is configured (MaxBytes=0, MaxDuration=%dms)", h.md)
 			}
 		}
 		if rotated {
@@ -417,7 +417,7 @@ func (h *fsHarness) exec(line string) (string, string) {
 func genFsCase(p *prng) []string {
 	mb := []int{0, 0, 50, 120, 300}[p.intn(5)]
 	mf := p.intn(4)
-	md := []int{0, 0, 0, 30}[p.intn(4)]
+	md := []int{0, 0, 0, 30, 30, -1, -40}[p.intn(7)]
 	tso := p.intn(2)
 	mode := []int{0, 0, 416, 438, 432}[p.intn(5)] // 0640, and 0666 / 0660: bits the process umask (022) would clear
 	ops := []string{fmt.Sprintf("reset %d %d %d %d %d", mb, mf, md, tso, mode)}
